@@ -42,10 +42,11 @@ namespace
         K_STRYWAIT,
         K_YIELD,
         K_PRED,
+        K_IDLE,
         K_DONE
     };
     const char *kname[] = {"start", "lock", "unlock", "trylock", "cond_wait", "cond_reacquire", "cond_signal",
-                           "cond_broadcast", "sem_wait", "sem_post", "sem_trywait", "yield", "wait_until", "done"};
+                           "cond_broadcast", "sem_wait", "sem_post", "sem_trywait", "yield", "wait_until", "wait_idle", "done"};
     struct Thread
     {
         int id = 0;
@@ -175,6 +176,7 @@ namespace
         case K_PRED:
             return pred_eval(t);
         case K_DONE:
+        case K_IDLE:
             return false;
         default:
             return true;
@@ -378,6 +380,15 @@ namespace sched
             if (cur_en)
                 en.insert(en.begin(), cur);
             if (en.empty())
+            { // quiescent: a thread waiting for exactly that may go
+                for (Thread *t : G.threads)
+                    if (!t->done && t->kind == K_IDLE)
+                    {
+                        en.push_back(t->id);
+                        break;
+                    }
+            }
+            if (en.empty())
                 break;
             if (++steps > G.opt.horizon)
             {
@@ -466,6 +477,13 @@ namespace sched
         me->what = what;
         park(me);
         me->pred = nullptr;
+    }
+    void wait_idle()
+    {
+        if (!scheduled())
+            return;
+        me->kind = K_IDLE;
+        park(me);
     }
     int self() { return me ? me->id : -1; }
     void note(const char *) {}
